@@ -98,6 +98,9 @@ pub enum Edit {
     PropRename { which: u32, name: u8 },
     /// Uncompressed binary: rename the class of the `which`-th INST chunk.
     InstRename { which: u32, class: u8 },
+    /// Uncompressed binary: change the instance count of the `which`-th INST
+    /// chunk (how: 0 -> zero, 1 -> one, 2 -> n-1, 3 -> n+1, 4 -> 2n, 5 -> huge).
+    InstCount { which: u32, how: u8 },
 }
 
 #[derive(Clone, Debug, Serialize, Deserialize, PartialEq)]
@@ -948,6 +951,27 @@ impl IoSim {
             shared_pool,
         };
         let mut tree = spec::gen_tree(r, &self.cat, &p);
+        // Type sweep: one class whose instances carry a property of many
+        // different value types, so that a fault in the class's INST chunk or a
+        // cut anywhere puts a decoder of (nearly) every wire type in flight.
+        if r.chance(1, 6) {
+            let class = if r.chance(1, 2) { "VerifSweep".to_string() } else { "Part".to_string() };
+            let n_inst = r.range(1, 3);
+            let mut types: Vec<&str> = spec::ALL_TYPES.to_vec();
+            r.shuffle(&mut types);
+            types.truncate(r.range(8, 40) as usize);
+            for i in 0..n_inst {
+                let mut props = Vec::new();
+                for ty in &types {
+                    if i > 0 && r.chance(1, 4) {
+                        continue;
+                    }
+                    let dummy = TreeParams { max_nodes: 1, max_depth: 1, max_props: 0, palette: vec![], known_prop_permille: 0, allow_uid: true, shared_pool: vec![] };
+                    props.push((format!("Sweep{}", ty), spec::gen_valspec_of_type(r, ty, 4, &dummy)));
+                }
+                tree.children.push(NodeSpec { class: class.clone(), name: format!("sweep{}", i), props, children: vec![] });
+            }
+        }
         // Make the rarer structures (SSTR chunk, sequences, Content arrays)
         // common enough to be in flight when a fault lands.
         if r.chance(1, 3) {
@@ -1000,11 +1024,11 @@ impl IoSim {
     fn gen_edit(&self, r: &mut Rng, format: Format) -> Edit {
         let pos = r.next_u64() as u32;
         let kinds: &[u32] = if format.is_bin() {
-            &[14, 12, 8, 6, 6, 6, 22, 16, 6, 4, 0, 8, 6, 6]
+            &[14, 12, 8, 6, 6, 6, 22, 16, 6, 4, 0, 8, 6, 6, 10]
         } else if format.is_xml() {
-            &[10, 10, 5, 8, 8, 22, 0, 0, 10, 5, 40, 0, 0, 0]
+            &[10, 10, 5, 8, 8, 22, 0, 0, 10, 5, 40, 0, 0, 0, 0]
         } else {
-            &[20, 20, 10, 8, 8, 6, 22, 0, 0, 6, 0, 0, 0, 0]
+            &[20, 20, 10, 8, 8, 6, 22, 0, 0, 6, 0, 0, 0, 0, 0]
         };
         match r.weighted(kinds) {
             0 => Edit::Flip { pos, bit: r.below(8) as u8 },
@@ -1029,7 +1053,8 @@ impl IoSim {
             10 => Edit::Xml { op: r.below(9) as u8, which: r.next_u64() as u32, arg: r.next_u64() as u32 },
             11 => Edit::PropType { which: r.next_u64() as u32, ty: r.below(0x24) as u8 },
             12 => Edit::PropRename { which: r.next_u64() as u32, name: r.below(PROP_NAMES.len() as u64) as u8 },
-            _ => Edit::InstRename { which: r.next_u64() as u32, class: r.below(CLASS_NAMES.len() as u64) as u8 },
+            13 => Edit::InstRename { which: r.next_u64() as u32, class: r.below(CLASS_NAMES.len() as u64) as u8 },
+            _ => Edit::InstCount { which: r.next_u64() as u32, how: *r.pick(&[0u8, 0, 0, 1, 2, 3, 4, 5]) },
         }
     }
 
@@ -1293,6 +1318,35 @@ impl IoSim {
                         ctx.count("fault_fired:prop-wire-type");
                     }
                 }
+            }
+            Edit::InstCount { which, how } => {
+                if !format.is_bin() {
+                    return;
+                }
+                let list: Vec<ChunkSpan> = walk_chunks(file).into_iter().filter(|c| &c.name == b"INST" && !c.compressed).collect();
+                if list.is_empty() {
+                    return;
+                }
+                let c = &list[*which as usize % list.len()];
+                if c.payload + 8 > c.end {
+                    return;
+                }
+                let nl = u32::from_le_bytes(file[c.payload + 4..c.payload + 8].try_into().unwrap()) as usize;
+                let at = c.payload + 8 + nl + 1; // after the name and the object-format byte
+                if at + 4 > c.end {
+                    return;
+                }
+                let n = u32::from_le_bytes(file[at..at + 4].try_into().unwrap());
+                let new = match how % 6 {
+                    0 => 0,
+                    1 => 1,
+                    2 => n.wrapping_sub(1),
+                    3 => n.wrapping_add(1),
+                    4 => n.wrapping_mul(2),
+                    _ => 0x00ff_ffff,
+                };
+                file[at..at + 4].copy_from_slice(&new.to_le_bytes());
+                ctx.count("fault_fired:inst-count");
             }
             Edit::PropRename { which, name } | Edit::InstRename { which, class: name } => {
                 if !format.is_bin() {
